@@ -86,6 +86,10 @@ def run_one(ctx, c, out, mode, kind, ci, size=60):
             ctx.mismatch("Average.allOutputs dims", desc, [name, dims], [name, got])
         if "mc" in av[name].dims or (("time" if over_time else "x") in got):
             ctx.fail(f"{name} has dims {av[name].dims}: indexed by the Monte Carlo sample or by the averaged dimension", desc)
+    # every averaged output that is returned, requested or not, must be free of the Monte Carlo sample dimension
+    for name in av.data_vars:
+        if "_avg" in str(name) and not str(name).endswith("_set") and "mc" in av[name].dims:
+            ctx.fail(f"{name} (returned although only {mode} was requested) is indexed by the Monte Carlo sample dimension: {av[name].dims}", desc)
     # values
     for lab in labels:
         T = out[lab].values
